@@ -683,7 +683,16 @@ class Verifier(Stmts):
 
     def uf_result(self, con, rty, vals, node, st):
         names = con.uf_args or [a.arg for a in node.args.args]
-        ts = [self.term(vals[n], None, st) for n in names]
+        ts = []
+        for n in names:
+            if n in vals:
+                ts.append(self.term(vals[n], None, st))
+            else:
+                # an access path over the parameters (e.g. a field of a mutable receiver): the summary depends on its value
+                val = self.spec_value(n, st, {})
+                if isinstance(val, Ref):
+                    val = self.lift(val, st)
+                ts.append(self.term(val, None, st))
         f = self.uf(con.uf_name, *([t.sort() for t in ts] + [to_sort(rty, self.reg)]))
         return V(f(*ts), rty)
 
